@@ -13,6 +13,7 @@ import (
 
 // runC18D3: the forced stop is not serialised behind the graceful stop.
 func runC18D3(c *Ctx) {
+	c18Use(c)
 	unbounded := func(fn *ssa.Function) bool {
 		if fn == nil {
 			return false
@@ -20,9 +21,20 @@ func runC18D3(c *Ctx) {
 		if strings.HasSuffix(funcName(fn), "grpc.Server).GracefulStop") || strings.HasSuffix(funcName(fn), "sync.WaitGroup).Wait") {
 			return true
 		}
-		return isRepoFn(fn) && mayExec(fn, func(i ssa.Instruction) bool {
+		return isRepoFn(fn) && c18MayExec(fn, func(i ssa.Instruction) bool {
+			if _, isGo := i.(*ssa.Go); isGo {
+				return false
+			}
 			cc := callCommon(i)
-			return cc != nil && (strings.HasSuffix(calleeName(cc), "grpc.Server).GracefulStop") || strings.HasSuffix(calleeName(cc), "sync.WaitGroup).Wait"))
+			if cc == nil {
+				return false
+			}
+			for _, n := range append(c18DynNames(cc), calleeName(cc)) {
+				if strings.HasSuffix(n, "grpc.Server).GracefulStop") || strings.HasSuffix(n, "sync.WaitGroup).Wait") {
+					return true
+				}
+			}
+			return false
 		}, 0)
 	}
 	n := 0
@@ -36,7 +48,7 @@ func runC18D3(c *Ctx) {
 			}
 			n++
 			bad := false
-			for _, fn := range funcsOf(cc.Args[1]) {
+			for _, fn := range c18FuncsOfAny(cc.Args[1]) {
 				if unbounded(fn) {
 					bad = true
 				}
@@ -60,6 +72,7 @@ func runC18D3(c *Ctx) {
 
 // runC18L2: no draining call while the server registry's lock is held.
 func runC18L2(c *Ctx) {
+	c18Use(c)
 	n := 0
 	for _, f := range c.fnsWhere("proxy", func(*ssa.Function) bool { return true }) {
 		eachInstr(f, func(i ssa.Instruction) {
@@ -71,10 +84,31 @@ func runC18L2(c *Ctx) {
 				return
 			}
 			n++
-			held := heldAt(i, false)
+			held := c18HeldAround(i, 0)
 			c.check("C18.L2", fnKey(f)+"|no Shutdown(ctx) of a server while a lock is held", i.Pos(), len(held) == 0,
 				"a server is drained (Shutdown(ctx) blocks for up to its deadline) while "+strings.Join(held, ", ")+" is held: proxy.Shutdown begins by taking the registry lock, so it waits out that drain before its own deadline even starts (shutdown takes up to twice the configured wait) and the other listeners keep accepting meanwhile")
 		})
 	}
 	c.atLeast("C18.L2", "Shutdown(ctx) invocations on servers in package proxy", n, 1)
+}
+
+// c18HeldAround: the locks held at instruction i: in its function, or - when nothing is held there - at a synchronous
+// static call site of the helper / closure i sits in (the lock taken by a caller is held in the callee).
+func c18HeldAround(i ssa.Instruction, depth int) []string {
+	if h := heldAt(i, false); len(h) > 0 {
+		return h
+	}
+	f := i.Parent()
+	if depth >= 2 || f == nil || !c18OnlyStatic(f) {
+		return nil
+	}
+	for _, s := range gSites[f] {
+		if _, isCall := s.(*ssa.Call); !isCall || s.Parent() == f {
+			continue
+		}
+		if h := c18HeldAround(s, depth+1); len(h) > 0 {
+			return h
+		}
+	}
+	return nil
 }
